@@ -77,7 +77,10 @@ class Isa:
     def p_bus_read(self, ip, st, fr, t, args):
         addr = args[1]
         if not isinstance(addr, Int):
-            raise InterpError("bus.read with opaque address")
+            # the address was computed through something the interpreter does not follow: the trace is imprecise (never a finding)
+            st.tag("unknown-callee")
+            ip.unknown_callees["<opaque bus.read address: %r>" % (addr,)] = 1
+            addr = Int(bv.data_bv("opaque_addr%d" % st.count("opq"), 32))
         k = st.count("memread")
         val = bv.data_bv("m%d" % k, 8)
         return self._fail_fork(ip, st, lambda: Enum(models.OK, [Int(val)]), ("memread", addr.bits, val), ("memread_fail", addr.bits), "buserr")
@@ -85,7 +88,12 @@ class Isa:
     def p_bus_write(self, ip, st, fr, t, args):
         addr, val = args[1], args[2]
         if not isinstance(addr, Int) or not isinstance(val, Int):
-            raise InterpError("bus.write with opaque operand %r %r in %s" % (addr, val, [f.body["key"].split("::")[-1] for f in st.frames]))
+            st.tag("unknown-callee")
+            ip.unknown_callees["<opaque bus.write operand: %r %r in %s>" % (addr, val, st.frames[-1].body["key"].split("::")[-1])] = 1
+            if not isinstance(addr, Int):
+                addr = Int(bv.data_bv("opaque_addr%d" % st.count("opq"), 32))
+            if not isinstance(val, Int):
+                val = Int(bv.data_bv("opaque_val%d" % st.count("opq"), 8))
         return self._fail_fork(ip, st, lambda: Enum(models.OK, [UNIT]), ("memwrite", addr.bits, val.bits), ("memwrite_fail", addr.bits), "buserr")
 
     def _cost(self, ip, st, kind, n, addr):
@@ -123,7 +131,9 @@ class Isa:
     def p_calc_state_with_addr(self, ip, st, fr, t, args):
         a = args[3]
         if not isinstance(a, Int):
-            raise InterpError("cost addr opaque")
+            st.tag("unknown-callee")
+            ip.unknown_callees["<opaque cost address: %r>" % (a,)] = 1
+            a = Int(bv.data_bv("opaque_addr%d" % st.count("opq"), 32))
         return self._cost(ip, st, args[1], args[2], a.bits)
 
     def p_mes(self, ip, st, fr, t, args):
